@@ -32,6 +32,15 @@ def scripts(rnd, quick):
                                 va = rnd.choice([addr, 0, 0xFFFFFFFF, 0x00C000DB])
                                 data = [rnd.choice([192, 219, rnd.randint(0, 255)]) for _ in range(n * (2 if mem16 else 1))]
                                 sc.append(rx(tr, mem16, cap, w, verdict=verdict, vaddr=va, data=data))
+            # no memory attached at all (the state after init): every executable request is answered "unmapped" at its own address
+            if mem16 == 1:
+                for write in (0, 1):
+                    for ws16 in (0, 1):
+                        for n in (0, 1, 3):
+                            for addr in (0, 0x1234, 0xFFFF0001, 0xC0DBDCDD):
+                                ws = 2 if ws16 else 1
+                                pl = [rnd.randint(0, 255) for _ in range(n * ws)] if write else []
+                                sc.append(rx(tr, 2, cap, wire(tr, request(tr, write, ws16, rnd.choice(seqs), addr, n, pl)), verdict=0, data=[1, 2, 3, 4, 5, 6]))
             # reads whose answer fits the block exactly / by one word more or less (16-bit and 8-bit semantics alike)
             for ws16 in (0, 1):
                 room = cap - (14 if tr == 0 else 12)
